@@ -119,4 +119,20 @@ def constFillGraph (v : Int) (shape : TG) (dt : Nat) : TG := astypeG 7 dt (.expa
 def arangeGraph (start : Int) (stop : TG) (step : Int) (dt : Nat) : TG :=
   astypeG 7 dt (.range (iscalar start) stop (iscalar step))
 
+/-- The leading zero block of `cumulative_sum(…, include_initial=True)`: `out_shape = shape(cs); out_shape[axis] = 1;
+zeros(out_shape, dtype)` — an assignment into the shape *vector*, exported as a `ScatterND` on it. -/
+def initialBlockGraph (cs : TG) (axis : Int) (rdt : Nat) : TG :=
+  constFillGraph 0 (setitemGraph (.shape cs) (iscalar 1) 1 [.int axis]) rdt
+
+/-- `concat([zeros(out_shape), cs], axis)`. -/
+def includeInitialGraph (cs : TG) (axis : Int) (rdt : Nat) : TG := .concat axis (initialBlockGraph cs axis rdt) cs
+
+/-- Result dtype code of `cumulative_sum`. -/
+def cumsumResultCode (t : Nat) (dtype : Option Nat) : Nat :=
+  match dtype with | some d => d | none => if isUnsignedCode t then 13 else 7
+
+/-- `cumulative_sum(x, axis=, dtype=, include_initial=True)`. -/
+def cumsumInclGraph (x : TG) (t : Nat) (dtype : Option Nat) (axis : Int) : Option TG :=
+  (cumsumGraph x t dtype axis).map (fun cs => includeInitialGraph cs axis (cumsumResultCode t dtype))
+
 end Ndx.TGraph
